@@ -124,7 +124,14 @@ Inductive case :=
   (* array.native[region.slice] as returned by Layout2D.extract_*_array_from / Region2D.slice *)
 | KSlice (m : list (list Z)) (r : reg2) (out : list (list Z))
   (* a history on one array object: initial contents and corner, the steps, what each observed step returned *)
-| KHistA (m0 : list (list Z)) (c0 : reg1) (steps : list astep) (outs : list (option (list (list Z)))).
+| KHistA (m0 : list (list Z)) (c0 : reg1) (steps : list astep) (outs : list (option (list (list Z))))
+  (* phase 3: the read-only attributes of a region object, as integers (slices as start, stop):
+     Region1D: x0, x1, total_pixels, slice, x_slice;
+     Region2D: y0, y1, x0, x1, total_rows, total_columns, shape, serial_x_front_range_from p, y_slice, x_slice, slice *)
+| KProps1 (self : reg1) (out : list Z)
+| KProps2 (self : reg2) (p : reg1) (out : list Z)
+  (* layout_util.rotate_pattern_ci_via_roe_corner_from: every region of a list rotated, the first exception wins *)
+| KRotPattern (rs : list (option reg2)) (s c : reg1) (out : res (list (option reg2))).
 
 Definition r1e := res_eqb reg1_eqb.
 Definition r2e := res_eqb reg2_eqb.
@@ -146,6 +153,14 @@ Definition lay_eqb (a b : layout) : bool :=
   reg1_eqb s s' && reg1_eqb c c' && oreg_eqb po po' && oreg_eqb sp sp' && oreg_eqb so so'.
 Definition rle := res_eqb lay_eqb.
 Definition oarr_eqb := option_eqb arr_eqb.
+
+(* specification of the read-only attributes and of the rotation of a list of regions *)
+Definition props1_spec (s : reg1) : list Z := let '(a, b) := s in [a; b; b - a; a; b; a; b].
+Definition props2_spec (s : reg2) (p : reg1) : list Z :=
+  let '(y0, y1, x0, x1) := s in
+  [y0; y1; x0; x1; y1 - y0; x1 - x0; y1 - y0; x1 - x0; x0 + fst p; x0 + snd p; y0; y1; x0; x1; y0; y1; x0; x1].
+Definition pat_rot_spec (rs : list (option reg2)) (s c : reg1) : list (option reg2) :=
+  map (option_map (fun r => rot_region_spec r s c)) rs.
 
 (* specification of a history: every observation is a pure function of the CURRENT contents and corner, which are
    the initial ones updated by the writes / corner changes made so far, and of nothing else; an edit of a returned
@@ -250,4 +265,8 @@ Definition spec_ok (k : case) : bool :=
   | KSlice m r out =>
       let s := shape_of m in negb (inside2b s r && rectb (fst s) (snd s) m) || arr_eqb out (slice2 m r)
   | KHistA m0 c0 steps outs => negb (ahist_okb m0 c0 steps) || aspec_from steps 0 steps m0 c0 None outs
+  | KProps1 s out => list_eqb Z.eqb out (props1_spec s)
+  | KProps2 s p out => list_eqb Z.eqb out (props2_spec s p)
+  | KRotPattern rs s c out =>
+      negb (forallb (oforall (inside2b s)) rs && cornerb c) || res_eqb (list_eqb oreg_eqb) out (Ok (pat_rot_spec rs s c))
   end.
